@@ -90,6 +90,8 @@ def run(ctx: Ctx) -> None:
     python_flags()
     ctx.rule = RULE
     cases = corpus("C05")
+    gap_corpus = [c for c in cases if c.get("gaps")]
+    cases = [c for c in cases if not c.get("gaps")]
     n = ctx.budget(quick=6000, thorough=60000)
     cases += gen_cases(ctx, n, p_missing=0.06, per_id_flags=0.2)
     # staggered start (streams with backlogs of older samples), tiny non-zero divisors, clip steps
@@ -99,6 +101,7 @@ def run(ctx: Ctx) -> None:
     cases += g.gen_clip_cases(ctx, max(60, n // 40), p_missing=0.06)
     # bounded-exhaustive small scope: all of it in the thorough tier, a slice of it in the quick tier
     cases += exhaustive(ctx, 1 if ctx.tier == "thorough" else 8)
+    g.check_gap_cases(ctx, "C05", gap_corpus + g.gap_cases(ctx, max(60, n // 50), p_missing=0.0))
     g.check_cases(ctx, "C05", cases)
 
     from . import datapath  # full-stack stage: the same property through the real sourcing -> resampling -> formula stack
@@ -110,4 +113,6 @@ def replay(ctx: Ctx, data: dict) -> None:
     case = data.get("case")
     if not isinstance(case, dict) or "kind" not in case:
         return run(ctx)
+    if case.get("gaps"):
+        return g.check_gap_cases(ctx, "C05", [case])
     g.check_cases(ctx, "C05", [case])
